@@ -49,6 +49,9 @@ def run_incarnation(plan: dict, hashseed: int, timeout_s: int = 600) -> dict:
             "PYTHONFAULTHANDLER": "1",
             "TF_CPP_MIN_LOG_LEVEL": "3",
         }
+        dbg = os.environ.get("DSIM_DEBUG_IDS")  # diagnostics for the harness author only
+        if dbg:
+            env["DSIM_DEBUG_IDS"] = dbg
         errp = os.path.join(d, "stderr.txt")
         with open(errp, "wb") as ef:
             try:
@@ -64,6 +67,9 @@ def run_incarnation(plan: dict, hashseed: int, timeout_s: int = 600) -> dict:
                 rc = cp.returncode
             except subprocess.TimeoutExpired:
                 rc = "timeout"
+        if dbg:
+            with open(errp, "rb") as ef, open(dbg, "ab") as out:
+                out.write(ef.read())
         if not os.path.exists(rp):
             with open(errp, "rb") as ef:
                 tail = ef.read()[-6000:].decode("utf-8", "replace")
